@@ -14,6 +14,7 @@ thread_local! {
     static CLOCK_ON: Cell<bool> = Cell::new(false);
     static PROBES: Cell<u64> = Cell::new(0);
     static EXPIRE_AT: Cell<Option<u64>> = Cell::new(None);
+    static EXPIRED: Cell<bool> = Cell::new(false);
     static REPAIR_SWAP: Cell<bool> = Cell::new(false);
 }
 
@@ -22,6 +23,7 @@ thread_local! {
 pub fn clock_install(expire_at: Option<u64>) {
     CLOCK_ON.with(|c| c.set(true));
     PROBES.with(|c| c.set(0));
+    EXPIRED.with(|c| c.set(false));
     EXPIRE_AT.with(|c| c.set(expire_at));
 }
 
@@ -29,6 +31,11 @@ pub fn clock_install(expire_at: Option<u64>) {
 pub fn clock_remove() -> u64 {
     CLOCK_ON.with(|c| c.set(false));
     PROBES.with(|c| c.get())
+}
+
+/// True once some probe has answered "deadline exceeded".
+pub fn clock_expired() -> bool {
+    EXPIRED.with(|c| c.get())
 }
 
 /// Number of deadline probes answered so far.
@@ -45,7 +52,11 @@ pub(crate) fn clock_probe() -> Option<bool> {
         c.set(i + 1);
         i
     });
-    Some(EXPIRE_AT.with(|c| c.get()).map_or(false, |k| i >= k))
+    let rv = EXPIRE_AT.with(|c| c.get()).map_or(false, |k| i >= k);
+    if rv {
+        EXPIRED.with(|c| c.set(true));
+    }
+    Some(rv)
 }
 
 /// Turns the swap repair on or off on this thread (off by default).
